@@ -268,3 +268,76 @@ func Hex(b []byte) string {
 	}
 	return fmt.Sprintf("%x", b)
 }
+
+// LoadResult reads a result file written by Write.
+func LoadResult(path string) (*Result, error) {
+	b, err := os.ReadFile(path)
+	if err != nil {
+		return nil, err
+	}
+	r := &Result{}
+	if err := json.Unmarshal(b, r); err != nil {
+		return nil, err
+	}
+	r.distinct = map[string]struct{}{}
+	r.maxKeep = 20
+	return r, nil
+}
+
+// WriteRaw writes the result without recomputing the distinct count (used when merging).
+func (r *Result) WriteRaw(path string) error {
+	b, err := json.MarshalIndent(r, "", " ")
+	if err != nil {
+		return err
+	}
+	return os.WriteFile(path, append(b, '\n'), 0o644)
+}
+
+// Merge adds another result (same property) into r.
+func (r *Result) Merge(o *Result) {
+	r.Evaluations += o.Evaluations
+	r.DistinctNontrivial += o.DistinctNontrivial
+	r.TracesValidated += o.TracesValidated
+	for k, v := range o.Histogram {
+		r.Histogram[k] += v
+	}
+	for _, s := range o.Samples {
+		if len(r.Samples) < 8 {
+			r.Samples = append(r.Samples, s)
+		}
+	}
+	for _, d := range o.Divergences {
+		if len(r.Divergences) < 20 {
+			r.Divergences = append(r.Divergences, d)
+		}
+	}
+	for _, v := range o.Violations {
+		dup := false
+		for _, x := range r.Violations {
+			if x.Signature == v.Signature {
+				dup = true
+			}
+		}
+		if !dup {
+			r.Violations = append(r.Violations, v)
+		}
+	}
+	r.Notes = append(r.Notes, o.Notes...)
+	if o.Rule != "" {
+		r.Rule = o.Rule
+	}
+	for _, s := range o.Streams {
+		has := false
+		for _, t := range r.Streams {
+			if s == t {
+				has = true
+			}
+		}
+		if !has {
+			r.Streams = append(r.Streams, s)
+		}
+	}
+	if o.HarnessError != "" {
+		r.HarnessError = o.HarnessError
+	}
+}
